@@ -371,7 +371,7 @@ def deploy_model(entries, target, twin=False):
         if e["key"] in seen:            # a dict cannot hold the same key twice: generator keeps keys unique
             raise HarnessError("duplicate manifest key %r" % e["key"])
         seen.add(e["key"])
-        if e["key"].split("/")[0] in RESERVED_KEYS:
+        if _top(e["key"]) in RESERVED_KEYS:
             # folders that deployment itself writes into (conf receives the workflow definition): what the instance
             # then contains is not modelled, only the no-write-outside oracle applies
             v.odd.append("reserved-key")
@@ -433,7 +433,7 @@ def check_deploy(case, ctx: Ctx):
     verdict, fs = deploy_model(entries, DP_T)
     guard_budget([e["key"] for e in entries], [], len(DP_T) - 1)
     for e in entries:
-        if e["key"].split("/")[0] in RESERVED_KEYS and "reserved-key" not in case.get("tags", []):
+        if _top(e["key"]) in RESERVED_KEYS and "reserved-key" not in case.get("tags", []):
             raise HarnessError("reserved manifest key generated: %r" % e["key"])
 
     root = make_sandbox(ctx)
@@ -800,6 +800,11 @@ def manifest_hostile(tech, k, land, variant):
 
 
 RESERVED_KEYS = ("conf", "input", "stages", "output")
+
+
+def _top(key):
+    """Left-most folder a relative manifest key denotes (./conf, conf/, a/../conf all denote conf)."""
+    return os.path.normpath(key).split("/")[0] if not key.startswith(("/", "{")) else key
 AMBIG_KEYS = ["a/../b", "./b", "b/", "b//c", "../inst.instance/re", "b/."]
 MAN_TECHS = ["dotdot-key", "dotdot-key", "absolute-key", "below-link-key"]
 
@@ -830,7 +835,8 @@ def deploy_case(draw):
     elif mode == "reserved":
         # a folder that deployment itself writes into, populated by the manifest - linked from outside in particular
         tags.append("reserved-key")
-        special = [{"key": draw(st.sampled_from(["conf", "conf", "conf", "input", "output"])), "src": "s1",
+        special = [{"key": draw(st.sampled_from(["conf", "conf", "./conf", "conf/", "bin/../conf", "input", "output",
+                                                 "./input"])), "src": "s1",
                     "method": draw(st.sampled_from(["link", "link", "copy", None])), "abs_src": draw(st.booleans())}]
     elif mode == "ambiguous":
         tags.append("ambiguous")
@@ -907,7 +913,7 @@ def catalogue():
                 {"kind": "extract", "src": "data/a0.tar", "members": [f("ok.txt")] + parts[0], "tags": ["cross-archive"]},
                 {"kind": "extract", "src": "data/a1.tar", "members": parts[1] + [f("ok2.txt")]}]}))
     for entry, via in (("expand", None), ("instance", "dict"), ("instance", "file")):
-        for key in ("conf", "input"):
+        for key in ("conf", "input", "./conf", "conf/", "bin/../conf"):
             for method in ("link", "copy"):
                 c = {"entry": entry, "tags": ["reserved-key"],
                      "entries": [{"key": key, "src": "s1", "method": method, "abs_src": True},
